@@ -321,6 +321,9 @@ def run(ctx):
     _roles.rule_A_NAMES(ctx, modules=('conversion::string::typst_formatter', 'enum_narsese::'))
     import emit as _emit
     _emit.rule_F_SKELETON_ALL(ctx, floor=5, which=("typst", "template"))
+    # the Typst renderer takes an image's components from Term::get_components_including_placeholder (seed c16-k: placeholder index clamped)
+    import lskel as _lskel
+    _lskel.rule_L_SKELETON(ctx, which=('term',), floor=10)
     ctx.undecided = ["injectivity of rendering over all pairs of values (only per-role/per-category distinctness and the layout rule are decided)",
                      "rendering equality up to the order of unordered components (depends on set iteration order)"]
     ctx.assumptions = ["ToDebug on the atom name yields a quoted, escaped string", "terms are finite trees (the formatter recurses on components)"]
